@@ -382,7 +382,13 @@ async def open_child_case(case: dict[str, Any], sc: Scenario) -> None:
 
                     await start_component(Keeper, timeout=None)
                     given = seen[0]
-                tg.start_soon(child_task, given)
+                if case["explicit_parent"] == "foreign_task":
+                    # the child is created - with this context as its explicit parent - by a task that lives in a context tree of its
+                    # own (its current context is an unrelated root)
+                    foreign_parent.append(given)
+                    parent_ready.set()
+                else:
+                    tg.start_soon(child_task, given)
                 await child_open.wait()
                 if case.get("child_phase") == "abandoned":
                     import gc
@@ -395,8 +401,18 @@ async def open_child_case(case: dict[str, Any], sc: Scenario) -> None:
             outcome["parent"] = None
         release.set()
 
+    foreign_parent: list[Any] = []
+    parent_ready = anyio.Event()
+
+    async def foreign_child() -> None:
+        await parent_ready.wait()
+        async with Context():
+            await child_task(foreign_parent[0])
+
     try:
         async with create_task_group() as tg:
+            if case["explicit_parent"] == "foreign_task":
+                tg.start_soon(foreign_child)  # (started where no context is current)
             await parent_task(tg)
     except BaseException as e:
         outcome["outer"] = e
@@ -552,8 +568,9 @@ def matrix_cells() -> list[dict[str, Any]]:
         if state != "inactive" and op not in ("reenter", "closed"):
             cells.append({"kind": "cell", "state": state, "op": op, "nested": nested, "backend": backend, "ending": ending,
                           "ops": {slot: [op]}, "via": "component"})
-    for nested, explicit, backend, falsy, phase in itertools.product([False, True], [False, True, "component"], ["asyncio", "trio"], [False, True], ["block", "teardown", "abandoned"]):
-        if (explicit == "component" or phase == "abandoned") and nested:
+    for nested, explicit, backend, falsy, phase in itertools.product([False, True], [False, True, "component", "foreign_task"], ["asyncio", "trio"], [False, True],
+                                                                     ["block", "teardown", "abandoned"]):
+        if (explicit in ("component", "foreign_task") or phase == "abandoned") and nested:
             continue
         cells.append({"kind": "open_child", "nested": nested, "explicit_parent": explicit, "backend": backend, "falsy_contexts": falsy, "child_phase": phase})
     for ending, nested, backend in itertools.product(["clean", "cancelled"], [False, True], ["asyncio", "trio"]):
